@@ -130,10 +130,10 @@ def build_tool(name, variant="plain"):
     """Build tools/<name>.c (orcc, generate-emulation) against the variant lib."""
     libd = build_lib(variant)
     cc, flags, hooks = VARIANTS[variant]
-    exe = os.path.join(libd, name)
+    src = os.path.join(REPO, "tools", name + ".c")
+    exe = os.path.join(libd, "%s-%s" % (name, sha(open(src, "rb").read())))
     if os.path.exists(exe):
         return exe
-    src = os.path.join(REPO, "tools", name + ".c")
     defs = BASE_DEFS + (["-D" + GUARD] if hooks else [])
     r = run([cc] + flags + defs + ["-w", "-I" + os.path.join(VERIF, "cfg"), "-I" + REPO, src,
              os.path.join(libd, "liborc.a"), "-lm", "-lpthread", "-o", exe])
